@@ -29,6 +29,13 @@ def name_pool(rng, n):
 # type-level chains: {"mother": m, "types": {name: [bf, [daughter names...]]}}
 
 
+def ladder(rng, depth, leaves_per_level=1):
+    """A cascade: `depth` decaying particles, each the daughter of the one before (plus plain leaves)."""
+    names = name_pool(rng, depth)
+    return chain_from_shape(tuple(range(depth - 1)), (0,) + (1,) * (depth - 1), [leaves_per_level] * depth, names, REAL_STABLE,
+                            [round(rng.uniform(0.3, 0.95), 4) for _ in range(depth)])
+
+
 def increasing_trees(n):
     """All parent arrays p[1..n-1] with p[i] < i: every rooted tree shape on n nodes (with repeats of isomorphic ones)."""
     if n == 1:
